@@ -116,6 +116,11 @@ pub fn strategy(with_close: bool) -> BoxedStrategy<IterCase> {
 trait Rec {
     fn sig(&self) -> c_int;
     fn id(&self) -> i64;
+    /// Some(description) if the record is not a faithful copy of the information of the
+    /// delivery whose id it carries
+    fn unfaithful(&self) -> Option<String> {
+        None
+    }
 }
 impl Rec for c_int {
     fn sig(&self) -> c_int {
@@ -132,6 +137,9 @@ impl Rec for libc::siginfo_t {
     fn id(&self) -> i64 {
         unsafe { *((self as *const libc::siginfo_t as *const i32).add(4)) as i64 }
     }
+    fn unfaithful(&self) -> Option<String> {
+        crate::reg::info_mismatch(self).map(|off| format!("raw record differs from the delivered siginfo_t at byte offset {}", off))
+    }
 }
 impl Rec for Origin {
     fn sig(&self) -> c_int {
@@ -140,12 +148,26 @@ impl Rec for Origin {
     fn id(&self) -> i64 {
         self.process.as_ref().map_or(-2, |p| p.pid as i64)
     }
+    fn unfaithful(&self) -> Option<String> {
+        use signal_hook::low_level::siginfo::{Cause, Sent};
+        if self.cause != Cause::Sent(Sent::User) {
+            return Some(format!("origin reports cause {:?}, the delivery was SI_USER", self.cause));
+        }
+        match &self.process {
+            Some(p) if p.uid == crate::reg::info_uid(p.pid as i32) => None,
+            Some(p) => Some(format!("origin reports uid {} for sender {}, the delivery carried uid {}", p.uid, p.pid, crate::reg::info_uid(p.pid as i32))),
+            None => Some("origin carries no process although the delivery was SI_USER".into()),
+        }
+    }
 }
 
 const SYNC_DELIVERIES_DONE: u32 = 7;
 
 fn yielded<R: Rec>(r: &R, phase: i64) {
     vsched::mark("yield", r.sig() as i64, r.id());
+    if let Some(why) = r.unfaithful() {
+        vsched::violate("C10/record", format!("yielded record of signal {} (sender id {}) is not a faithful copy: {}", r.sig(), r.id(), why));
+    }
     let _ = phase;
 }
 
